@@ -148,7 +148,12 @@ func runC12(c *Ctx) {
 				continue
 			}
 			// (a nil response has no body to close)
-			leak := pathExists(sub, do, r, anyFact(factNil(errAlias(derr), false), factNil(vIs(resultOf(do, 0)), true)), isOneOf(closes...))
+			// (a defensive `if res.Body != nil`: without a body there is nothing to close)
+			noBody := factNil(func(v ssa.Value) bool {
+				_, okF := fieldLoad(v, "net/http.Response", "Body")
+				return okF
+			}, true)
+			leak := pathExists(sub, do, r, anyFact(factNil(errAlias(derr), false), factNil(vIs(resultOf(do, 0)), true), noBody), isOneOf(closes...))
 			c.obI("R12.2", r, "body-close-deferred-before-return", !leak, "once client.Do succeeded, no return is reachable before res.Body.Close has been deferred (malformed content type, missing consumer and debug-dump failures included)", "a return after a successful Do leaves the response body open")
 		}
 		checkErrorsReturned(c, "R12.2", sub, 1, nil)
@@ -376,7 +381,11 @@ func runC12(c *Ctx) {
 			continue
 		}
 		// file closer: ranges over r.fileFields and closes every entry
-		for _, ml := range mapLoops(df, vFieldLoad(clientReqT, "fileFields", nil)) {
+		isFileFields := func(v ssa.Value) bool {
+			// the field itself, or what its plain accessor GetFileParam() returns
+			return vFieldLoad(clientReqT, "fileFields", nil)(v) || vFieldLoadO(clientReqT, "fileFields")(v)
+		}
+		for _, ml := range mapLoops(df, isFileFields) {
 			for _, sl := range sliceLoops(df, vOrigins(oIsValue(extractOf(ml.Next, 2)))) {
 				if sl.everyIteration(func(in ssa.Instruction) bool {
 					ci, ok := in.(ssa.CallInstruction)
